@@ -77,6 +77,8 @@ def translators():
   out['Src_lsml'] = lambda: translate_lsml.translate(REPO)
   import translate_scml
   out['Src_scml'] = lambda: translate_scml.translate(REPO)
+  import translate_pins
+  out['Src_pins'] = lambda: translate_pins.translate(REPO)
   try:
     import translate_all
     out.update(translate_all.TRANSLATORS)
@@ -297,6 +299,13 @@ class Ctx:
         for g, units in PARTIAL.items():
           for u, why in units.items():
             self.break_tie('translator', '%s: %s' % (g, u), "not in the translated subset (definition left out of gen/%s.v): %s" % (g, why))
+        try:
+          import translate_pins
+          pdiff = translate_pins.diff_report(REPO, self.prop)
+        except Exception:
+          pdiff = ''
+        if pdiff and 'Pins%s' % self.prop in out:
+          self.break_tie('obligation', 'Proofs/Pins%s.v: a function this property\'s hand-written model was written from has changed' % self.prop, pdiff)
         self.break_tie('obligation', 'Properties/%s.v (or a lemma it depends on)' % self.prop, where or out[-1500:])
         return False
       # recompile the property file itself to capture Print Assumptions
